@@ -133,6 +133,21 @@ PrefixExpFrom(m, obs, p, t, acc) ==
 PrefixExp(m, obs, p) == PrefixExpFrom(m, obs, p, 1, Plus(XPi(m, p[1]), XB(m, p[1], obs[1])))
 PrefixMin(m, obs, t, s) == Min({PrefixExp(m, obs, p) : p \in {q \in [1..t -> XStates(m)] : q[t] = s}})
 
+\* tie-aware conformance of a reported path with the (min,+) Viterbi machine (see Hmm.tla,
+\* VitConsistent: exact ties are resolved by floating-point rounding in the code)
+RECURSIVE XBestInto(_, _, _, _, _)
+XBestInto(m, prev, j, k, acc) ==
+    IF k = m.s THEN acc ELSE XBestInto(m, prev, j, k + 1, Min2(acc, Plus(prev[k + 1], XA(m, k, j))))
+XVitConsistent(m, obs, path) ==
+    LET rows == XVitRun(m, obs, 1, <<XVitRow0(m, obs[1])>>, <<XFromRow0(m)>>)[1]
+        T    == Len(obs)
+        lrow == XEndRow(m, rows[T])
+        top  == Min({lrow[k] : k \in 1..m.s})
+    IN  /\ IF top < INF THEN lrow[path[T] + 1] = top ELSE path[T] = XVitLast(lrow)
+        /\ \A t \in 2..T :
+              LET j == path[t]  k == path[t - 1]  best == XBestInto(m, rows[t - 1], j, 0, INF) IN
+              IF best < INF THEN Plus(rows[t - 1][k + 1], XA(m, k, j)) = best ELSE k = XVitPred(m, rows[t - 1], j)
+
 \* ------------------------------------------------ closed-form family "cycle"
 \* Models too large for any enumeration (S in the hundreds) are described by a few
 \* parameters; the run carries only these, the harness builds the dense matrices from them:
